@@ -47,6 +47,7 @@ type c04Case struct {
 	Segs      []int      `json:"segs"`
 	DefSeg    int        `json:"default_seg"`
 	OnAuth    int        `json:"on_auth"`
+	Twins     []string   `json:"twins,omitempty"`
 }
 
 const c04AuthPromptRx = "pfesc_cisco_iosxe_default_privilege_exec"
@@ -80,8 +81,49 @@ func genTree(r *sim.Rng, n int) []c04Level {
 func genC04(r *sim.Rng) *c04Case {
 	n := 1 + r.Intn(6)
 	c := &c04Case{Levels: genTree(r, n)}
+	// twin leaves: two sibling leaf levels whose prompts are the same (as configuration and
+	// configuration-exclusive on IOS-XR): only the cached current level tells them apart. The
+	// session never starts in one of them (nothing could identify it then).
+	twin := ""
+	if n >= 2 && n <= 5 && r.Chance(1, 3) {
+		isLeaf := func(nm string) bool {
+			for _, l := range c.Levels {
+				if l.Previous == nm {
+					return false
+				}
+			}
+			return true
+		}
+		var leaves []int
+		for i := 1; i < n; i++ {
+			if isLeaf(c.Levels[i].Name) {
+				leaves = append(leaves, i)
+			}
+		}
+		li := leaves[r.Intn(len(leaves))]
+		used := map[string]bool{}
+		for _, l := range c.Levels {
+			used[l.Name] = true
+		}
+		for _, nm := range []string{"exec", "privilege-exec", "configuration", "tclsh", "shell", "special"} {
+			if !used[nm] {
+				twin = nm
+				break
+			}
+		}
+		c.Levels[li].Auth = false
+		c.Levels = append(c.Levels, c04Level{Name: twin, Pat: c.Levels[li].Pat, Previous: c.Levels[li].Previous,
+			Esc: "enter " + twin, Deesc: "leave " + twin})
+		c.Twins = []string{c.Levels[li].Name, twin}
+		n++
+	}
 	c.Default = c.Levels[r.Intn(n)].Name
-	c.StartMode = c.Levels[r.Intn(n)].Name
+	for {
+		c.StartMode = c.Levels[r.Intn(n)].Name
+		if len(c.Twins) == 0 || (c.StartMode != c.Twins[0] && c.StartMode != c.Twins[1]) {
+			break
+		}
+	}
 	if r.Chance(2, 3) {
 		c.Secondary = r.Pick([]string{"s3cr3t", "enable%s", "p.w*"})
 	}
@@ -106,6 +148,9 @@ func genC04(r *sim.Rng) *c04Case {
 			}
 		default:
 			t := c.Levels[r.Intn(n)].Name
+			if len(c.Twins) == 2 && r.Chance(1, 2) {
+				t = c.Twins[r.Intn(2)]
+			}
 			if r.Chance(1, 8) {
 				t = "no-such-level"
 			}
@@ -208,6 +253,9 @@ func runC04Case(id string, c *c04Case) {
 	tr.Segs = c.Segs
 	tr.DefaultSeg = c.DefSeg
 	cs := &Case{ID: id, Kind: fmt.Sprintf("levels=%d", len(c.Levels)), HypOK: true, Replay: c}
+	if len(c.Twins) == 2 {
+		cs.Kind += "+twins"
+	}
 	opts := []util.Option{options.WithCustomTransport(tr), options.WithReadDelay(20 * time.Microsecond), options.WithTimeoutOps(400 * time.Millisecond),
 		options.WithPrivilegeLevels(pl), options.WithDefaultDesiredPriv(c.Default)}
 	if c.Secondary != "" {
